@@ -142,6 +142,32 @@ func Load(cfg LoadConfig) *Prog {
 	if p.Stats.Packages == 0 {
 		fatal("no module packages among %d loaded", len(pkgs))
 	}
+	// methods declared on generic named types are not in any method set until the type is
+	// instantiated: add their generic bodies explicitly
+	for _, pk := range prog.AllPackages() {
+		if !inModulePkg(pk) {
+			continue
+		}
+		sc := pk.Pkg.Scope()
+		for _, nm := range sc.Names() {
+			tn, ok := sc.Lookup(nm).(*types.TypeName)
+			if !ok {
+				continue
+			}
+			named, ok := tn.Type().(*types.Named)
+			if !ok {
+				continue
+			}
+			for i := 0; i < named.NumMethods(); i++ {
+				if fn := prog.FuncValue(named.Method(i)); fn != nil {
+					all[fn] = true
+					for _, an := range fn.AnonFuncs {
+						all[an] = true
+					}
+				}
+			}
+		}
+	}
 	for fn := range all {
 		if inModule(fn) && fn.Blocks != nil {
 			if !cfg.Tests && isTestFile(p, fn) {
